@@ -196,3 +196,73 @@ func ruleParserNoCaseFolding(w *World, r *RuleResult) {
 	}
 	_ = token.ADD
 }
+
+func init() {
+	register(&Rule{ID: "C14.R7", Min: 1,
+		Text: "Format counts what it writes: the padding width is computed from the lengths of the very sign string and digit buffer that are written afterwards (after the sign has been split off), so that width is applied the way fmt applies it to numbers",
+		Run:  ruleFormatPadding})
+}
+
+func ruleFormatPadding(w *World, r *RuleResult) {
+	f := w.fn("(*Decimal).Format")
+	if f == nil {
+		r.anchorMissing("(*Decimal).Format")
+		return
+	}
+	key := "(*Decimal).Format | padding counts the bytes written"
+	// values written: s.Write(buf) and writeMultiple(s, sign, 1)
+	var bufs, signs, pads []ssa.Value
+	for _, c := range callsIn(f) {
+		cc := c.Common()
+		if cc.IsInvoke() && cc.Method.Name() == "Write" && len(cc.Args) == 1 {
+			bufs = append(bufs, cc.Args[0])
+		}
+		if g := callee(c); g != nil && w.shortName(g) == "writeMultiple" && len(cc.Args) == 3 {
+			if k, ok := cc.Args[2].(*ssa.Const); ok && ci(k) == 1 {
+				signs = append(signs, cc.Args[1])
+			} else {
+				pads = append(pads, cc.Args[2])
+			}
+		}
+	}
+	if len(bufs) == 0 || len(signs) == 0 || len(pads) == 0 {
+		r.anchorMissing("(*Decimal).Format: Write / writeMultiple structure")
+		return
+	}
+	lenOf := func(e *Expr, v ssa.Value) bool {
+		found := false
+		e.walk(func(x *Expr) bool {
+			if x.Op == "call" && x.Name == "builtin len" && len(x.Args) == 1 && x.Args[0].V == v {
+				found = true
+			}
+			return true
+		})
+		return found
+	}
+	var bad []string
+	for _, p := range pads {
+		e := w.exprOf(f, p)
+		okB, okS := false, false
+		for _, b := range bufs {
+			if lenOf(e, b) {
+				okB = true
+			}
+		}
+		for _, s := range signs {
+			if lenOf(e, s) {
+				okS = true
+			}
+		}
+		if !okB {
+			bad = append(bad, "the padding does not subtract the length of the digit buffer that is written (it may count the buffer before the sign was split off)")
+		}
+		if !okS {
+			bad = append(bad, "the padding does not subtract the length of the sign that is written (a sign added by the + or space flag widens the field)")
+		}
+	}
+	if len(bad) > 0 {
+		r.bad(key, w.pos(f.Pos()), strings.Join(uniqStrings(bad), "; "))
+	} else {
+		r.ok(key, w.pos(f.Pos()), fmt.Sprintf("%d padding computations, each width − len(sign written) − len(buffer written)", len(pads)), true)
+	}
+}
